@@ -286,6 +286,7 @@ type term struct {
 	recvCh chan []byte
 	closed atomic.Bool
 	wmu    sync.Mutex
+	smu    sync.Mutex
 }
 
 // dial connects one terminal; dials are serialised so that accept order = index order.
@@ -353,7 +354,12 @@ func (t *term) send(b []byte) error {
 	return err
 }
 
-func (t *term) nextSerial() int { t.serial = (t.serial + 1) % 65536; return t.serial }
+func (t *term) nextSerial() int {
+	t.smu.Lock()
+	defer t.smu.Unlock()
+	t.serial = (t.serial + 1) % 65536
+	return t.serial
+}
 
 func (t *term) frame(id int, body []byte) []byte {
 	return buildFrame(hdrSpec{id: id, serial: t.nextSerial(), ver: t.ver, verbyte: 1, phone: t.phone, body: body})
